@@ -299,6 +299,10 @@ func verifRCompareRecs(stored []*storage.TupleRecord, want []bool, got []*storag
 // param drain=1: consume the iterator through Next and compare tuple contents (small bounds);
 // drain=0: compare the selected record pointers (the iterator protocol is VerifK13Iterator).
 func verifRCheck(ds *MemoryBackend, recs []verifRRec, want []bool, it storage.TupleIterator, sorted bool, api string) {
+	// jobs that isolate one input class name it (param case) so that their findings are told apart
+	if c := vt.Param("case", ""); c != "" {
+		api = "[" + c + "] " + api
+	}
 	nonEmpty := false
 	if vt.ParamInt("drain", 0) != 0 {
 		got := verifRDrain(it, 2*len(recs))
